@@ -346,6 +346,26 @@ pub fn run(ctx: &Ctx) -> Outcome {
             dash_array: vec![],
             dash_offset: 0.,
         };
+        // now and then every vertex lies off the surface, further away than half the width, so that only
+        // miter tips and cap corners can reach onto it
+        let (mut path, mut style) = (path, style);
+        if rng.chance(0.12) {
+            if rng.chance(0.5) {
+                style.join = LineJoin::Miter;
+                style.miter_limit = *rng.pick(&[4.0f32, 10.0]);
+            } else {
+                style.cap = LineCap::Square;
+            }
+            style.width = rng.range(6., 24.) as f32;
+            let pts: Vec<Point> = path.ops.iter().filter_map(|o| match o { PathOp::MoveTo(p) | PathOp::LineTo(p) => Some(*p), PathOp::QuadTo(_, p) => Some(*p), PathOp::CubicTo(_, _, p) => Some(*p), _ => None }).collect();
+            if !pts.is_empty() {
+                let max_x = pts.iter().map(|p| p.x).fold(f32::MIN, f32::max);
+                let gap = style.width / 2. * rng.range(1.02, 1.6) as f32;
+                let dx = -gap - max_x;
+                path = path.transform(&Transform::translation(dx, 0.));
+            }
+        }
+        let t = if style.cap == LineCap::Square || style.join == LineJoin::Miter { t } else { t };
         let c = StrokeCase { w, h, path, style, t, aa: rng.chance(0.8) };
         let mut co = CaseOut::default();
         co.hash = crate::prng::hash_str(&format!("{:?}{:?}{:?}{}", c.path, c.style, c.t, c.aa));
